@@ -61,10 +61,18 @@ theorem C09_remove_nonchild (look : Look) (h : Heap) (c : Nat) (k : CK) (x : Nat
   | some y =>
     exact Or.inr ⟨y, List.mem_of_find?_eq_some hf, List.find?_some hf, rfl, detach_parent h c k y⟩
 
+/-- C09-5 (expiry): when the last reference to a parentless variable is dropped, no equivalence list mentions it any
+    more and the invariants (symmetry included) still hold -/
+theorem C09_release (h : Heap) (v : Nat) (hi : Inv kindOf h) (hnd : EqNodup h) (hp : h.parent v = none) :
+    (release h v).2 = true ∧ (∀ x, v ∉ (release h v).1.equiv x) ∧ Inv kindOf (release h v).1 ∧ EqNodup (release h v).1 := by
+  have hf := release_forgets h v hp
+  refine ⟨hf.1, fun x => ?_, release_inv h v hi hnd, eqNodup_release h v hnd⟩
+  exact hf.2.2 x (hnd x)
+
 /-! non-vacuity: a concrete valid history (two models, a component moved between them, a variable, an equivalence) -/
 def exKind (x : Nat) : CK := if x < 5 then .comp else if x < 8 then .var else if x < 10 then .units else .reset
 def exLook : Look := fun _ _ _ => false
-def exOps : List Op := [.addToModel 0 2, .addComponent 2 3, .addVariable 3 5, .addToModel 1 3, .addVariable 2 6, .addEquivalence 5 6, .removePtr 1 .comp 3]
+def exOps : List Op := [.addToModel 0 2, .addComponent 2 3, .addVariable 3 5, .addToModel 1 3, .addVariable 2 6, .addEquivalence 5 6, .addEquivalence 5 7, .release 7, .removeAllEquivalences 5, .removePtr 1 .comp 3]
 example : AllValid exKind exLook (fun _ => "") 16 empty exOps := by
   simp only [exOps, AllValid, Valid, step, exKind]
   decide
